@@ -1,6 +1,7 @@
 import AgModel.Model.TrieOps
 import AgModel.Model.Exec
 import AgModel.Proofs.TrieState
+import AgModel.Proofs.TrieIter
 import AgModel.Proofs.LtHash
 import AgModel.Proofs.Exec
 /-!
@@ -80,6 +81,11 @@ theorem get_refines (s : State) (m : Map) (h : Inv s m) (key : Key) : s.get key 
 theorem no_panic (s : State) (m : Map) (h : Inv s m) (op : Op) (hk : ValidKey op.key) : s.apply op ≠ .panic := by
   obtain ⟨s', e, _⟩ := step_refines s m h op hk
   rw [e]; intro h'; cases h'
+
+/-- `Iter::next`'s explicit-stack loop (pop; yield a leaf; push a branch's children so that they are
+    popped in chunk order), started from `[root]`, yields exactly the listing `iter` used above -/
+theorem iter_is_stack_loop (s : State) (h : s.wf = true) : iterStack (size s.root) [s.root] = s.iter :=
+  iter_stack_eq_toList s h
 
 /-! ## 2. Canonical structure: equal contents ⇒ equal states -/
 
